@@ -160,7 +160,7 @@ def _reader_world(model, ch, entry, checks_end=(CHECK_OK,), n_rows_options=(0, 1
     # API contract: header >= 0 (DataFormat.header setter), limit >= 0 (asserted by Reader / rows / validate)
     interp.order.declare(("s", "h"), ">=", ("c", 0))
     interp.order.declare(("s", "n"), ">=", ("c", 0))
-    mode = ch.choose("mode", list(modes)) if entry in ("Reader.rows", "rows()") else "raise"
+    mode = ch.choose("mode", list(modes)) if entry in ("Reader.rows", "rows()", "validate_rows") else "raise"
     n_rows = ch.choose("raw rows", list(n_rows_options))
     fault_at = ch.choose("container fault", [None] + list(range(n_rows + 1))) if with_faults else None
     rows = [world.row(index, 2) for index in range(n_rows)]
@@ -170,10 +170,10 @@ def _reader_world(model, ch, entry, checks_end=(CHECK_OK,), n_rows_options=(0, 1
             "fault_at": fault_at, "holder": rows_holder, "n_rows": n_rows}
 
 
-def reader_rows_run(model, ch, entry="Reader.rows"):
+def reader_rows_run(model, ch, entry="Reader.rows", max_rows=3):
     """entry: "Reader.rows" (generator of a Reader), "rows()" (validio.rows), "validate()" (validio.validate),
     "validate_rows" (Reader.validate_rows inside with, as the command line does)."""
-    run = _reader_world(model, ch, entry)
+    run = _reader_world(model, ch, entry, n_rows_options=tuple(range(0, max_rows + 1)))
     interp, cid = run["interp"], run["cid"]
     stream = run["world"].stream()
     items = []
@@ -187,6 +187,10 @@ def reader_rows_run(model, ch, entry="Reader.rows"):
         elif entry == "validate()":
             generator = None
             interp.call_function(model.func("cutplace.validio.validate"), [cid, stream], {"validate_until": run["limit"]}, None)
+        elif entry == "validate_rows":
+            generator = None
+            reader = _construct(interp, READER, [cid, stream], {"on_error": run["mode"], "validate_until": run["limit"]})
+            interp.call_function(model.func(READER + ".validate_rows"), [reader], {}, None)
         else:
             raise AnalysisError("unknown entry %s" % entry)
         if generator is not None:
@@ -284,14 +288,14 @@ def reader_rows_oracle(run, aspects):
                         break
                     rejected += 1
                     if mode == "yield":
-                        if entry != "validate()":
+                        if entry not in ("validate()", "validate_rows"):
                             item = cursor.expect("yield")
                             if cursor.events[cursor.position - 1][1] is not error:
                                 raise Mismatch("mode yield: rejected raw row %d did not produce its own error" % k)
                     continue
             accepted += 1
             yielded_data_rows += 1
-            if entry != "validate()":
+            if entry not in ("validate()", "validate_rows"):
                 cursor.expect("yield")
                 if cursor.events[cursor.position - 1][1] is not run["rows"][index]:
                     raise Mismatch("raw row %d was not returned unchanged" % k)
@@ -300,16 +304,16 @@ def reader_rows_oracle(run, aspects):
             if "faults" in aspects:
                 if outcome[0] != "raise" or exc_name(outcome[1]) != "DataFormatError":
                     raise Mismatch("container fault at raw row %d did not stop reading with DataFormatError in mode %s" % (k, mode))
-            if entry != "Reader.rows":
+            if entry not in ("Reader.rows", "validate_rows"):
                 _expect_close(cursor, entry, aspects)
             cursor.done()
             return "conforms"
         if stopped == "raised":
-            if entry != "Reader.rows":
+            if entry not in ("Reader.rows", "validate_rows"):
                 _expect_close(cursor, entry, aspects)
             cursor.done()
             return "conforms"
-        if entry != "Reader.rows":
+        if entry not in ("Reader.rows", "validate_rows"):
             _expect_close(cursor, entry, aspects)
         cursor.done()
         if outcome[0] != "return":
@@ -347,11 +351,14 @@ def _rows_key(run):
 
 
 def reader_rows_table(ctx, rule, aspects, entry="Reader.rows"):
+    max_rows = 4 if ctx.thorough else 3
+
     def cell(ch):
-        run = reader_rows_run(ctx.model, ch, entry)
+        run = reader_rows_run(ctx.model, ch, entry, max_rows)
         return (_rows_key(run), reader_rows_oracle(run, aspects), "conforms")
 
-    qualname = {"Reader.rows": READER + ".rows", "rows()": "cutplace.validio.rows", "validate()": "cutplace.validio.validate"}[entry]
+    qualname = {"Reader.rows": READER + ".rows", "rows()": "cutplace.validio.rows", "validate()": "cutplace.validio.validate",
+                "validate_rows": READER + ".validate_rows"}[entry]
     return decide(ctx, rule, "%s[%s]" % (entry, "+".join(sorted(aspects))), qualname, cell, min_cells=40)
 
 
@@ -445,7 +452,7 @@ def install_writer_externals(interp):
 
         op, left, right = args
         if isinstance(op, _ast.Add) and isinstance(left, RowText) and isinstance(right, str):
-            return RowText(left.row, left.terminator + right)
+            return RowText(left.row, left.terminator + right, left.cells_rewritten)
         if previous_binop is not None:
             return previous_binop(interp_, args, kwargs)
         return NotImplemented
@@ -496,17 +503,29 @@ class RowText(AText):
 
     custom_eq = True
 
-    def __init__(self, row, terminator):
+    def __init__(self, row, terminator, cells_rewritten=False):
         AText.__init__(self, AText.TEXT, "formatted row")
         self.row = row
         self.terminator = terminator
+        self.cells_rewritten = cells_rewritten
+        text = self
+
+        @stub
+        def replace(interp, args, kwargs):
+            old, new = args[0], args[1]
+            if not (isinstance(old, str) and isinstance(new, str) and old):
+                raise Undecided("replace(%r, %r) on a formatted row" % (old, new))
+            # a textual replacement cannot tell the terminator from the same characters inside a quoted cell
+            return RowText(text.row, text.terminator.replace(old, new), cells_rewritten=True)
+
+        self.methods = {"replace": replace}
 
 
 def _row_text_subscript(interp, args, kwargs):
     text, index = args
     if isinstance(text, RowText) and isinstance(index, slice) and index.start is None and index.step is None \
             and isinstance(index.stop, int) and index.stop < 0 and -index.stop <= len(text.terminator):
-        return RowText(text.row, text.terminator[: index.stop])
+        return RowText(text.row, text.terminator[: index.stop], text.cells_rewritten)
     raise Undecided("subscript %r of %r" % (index, text))
 
 
@@ -683,6 +702,9 @@ def writer_oracle(run, aspects):
                     emitted, terminator = (event[1], event[2]) if event[0] == "emit" else (event[1].row, event[1].terminator)
                     if emitted is not run["rows"][index]:
                         raise Mismatch("row %d was not emitted unchanged" % index)
+                    if event[0] == "write" and event[1].cells_rewritten:
+                        raise Mismatch("row %d: the line terminator was exchanged by a textual replacement over the whole formatted row, "
+                                       "which also rewrites the same characters inside cells" % index)
                     if "delimiter" in aspects:
                         declared = run["line_delimiter"]
                         if declared == "any":
@@ -736,7 +758,7 @@ def writer_table(ctx, rule, aspects, format_name="delimited"):
 
 # =============================================================================== histories on one CID (C08)
 HISTORY_OPS = ["read+close", "read-abandon", "read-noclose", "reader-close-only", "write+close", "write-noclose",
-               "rows()", "validate()", "validate-limit-0", "validate_rows+close"]
+               "rows()", "validate()", "validate-limit-0", "validate_rows+close", "two-readers-created-then-read"]
 
 
 def history_run(model, ch, length):
@@ -772,7 +794,16 @@ def history_run(model, ch, length):
         interp.event("run", position, op)
         try:
             stream = world.stream()
-            if op.startswith("read") or op == "reader-close-only" or op == "validate_rows+close":
+            if op == "two-readers-created-then-read":
+                # both readers exist before the first data set is read; each pass must still start with fresh checks
+                readers = [_construct(interp, READER, [cid, world.stream("stream%d" % index)]) for index in range(2)]
+                for index, reader in enumerate(readers):
+                    interp.event("run", position, "%s (reader %d)" % (op, index + 1))
+                    generator = interp.call_function(model.func(READER + ".rows"), [reader], {}, None)
+                    for _ in interp.iterate(generator):
+                        pass
+                    interp.call(interp.getattr(reader, "close"), [], {})
+            elif op.startswith("read") or op == "reader-close-only" or op == "validate_rows+close":
                 reader = _construct(interp, READER, [cid, stream])
                 if op == "reader-close-only":
                     interp.call(interp.getattr(reader, "close"), [], {})
